@@ -24,5 +24,7 @@ def run(ctx):
     failures += progflow.judge(ctx, gen, "gen")
     failures += corpus.judge(ctx, "C01")
     failures += comprun.judge(ctx, False)
+    # beyond the small scope: sizes that cross the one-digit / two-digit boundary of names, counters and indices (spec/FamScale.tla)
+    failures += progflow.judge(ctx, progflow.scale_cases(ctx, "C01"), "scale")
     progflow.report(ctx, failures)
     return ctx.finish(rule=RULE, assumptions=ASSUME)
